@@ -774,8 +774,9 @@ def opsOk (c : Cfg) (nq : Nat) : Link → List Op → Prop
   | _, [] => True
   | s, op :: ops => opOk c nq s op ∧ opsOk c nq (specStep c.cap s op) ops
 
-/-- configuration the partial theorem needs: a buffer of at least one octet and (F10) no handler
-on a DLCI that does not travel transparently -/
+/-- configuration the partial theorem needs: a buffer of at least one octet and no handler on
+DLCI 0x7E (one of the three addresses that do not travel transparently, F10: it is the address a
+receiver that is one flag ahead reads) -/
 def CfgOk (c : Cfg) : Prop := 0 < c.cap ∧ c.reg 0x7E = false
 
 /-- simulation relation between the model and the abstract link -/
